@@ -17,6 +17,7 @@ import sys
 import qcore
 import linecache
 import traceback
+import types
 import logging
 from sys import stderr, stdout
 from pygments import highlight  # pygments loading behavior requires this style import
@@ -118,7 +119,12 @@ def format_error(error, tb=None):
         return None
     result = ""
     if hasattr(error, "_traceback") or tb is not None:
-        tb = tb or error._traceback
+        if tb is None:
+            # the traceback asynq glued together - if that is what the attribute holds: an
+            # exception class may have a _traceback attribute of its own (remote traceback text)
+            tb = error._traceback
+            if not isinstance(tb, types.TracebackType):
+                tb = None
         tb_list = traceback.format_exception(error.__class__, error, tb)
     elif isinstance(error, BaseException):
         tb_list = traceback.format_exception_only(error.__class__, error)
